@@ -97,13 +97,13 @@ func (e *Exec) globalAddr(g *ssa.Global) Ptr {
 	}
 	// harness packages: run the package initialiser (variable initialisers and
 	// init functions) once per path, skipping other packages' initialisers
-	if g.Pkg != nil && strings.HasPrefix(g.Pkg.Pkg.Path(), "verif/harness") && !e.pkgInited[g.Pkg] {
+	if g.Pkg != nil && (strings.HasPrefix(g.Pkg.Pkg.Path(), "verif/harness") || e.prog.inModule(g.Pkg.Pkg.Path())) && !e.pkgInited[g.Pkg] {
 		if e.pkgInited == nil {
 			e.pkgInited = map[*ssa.Package]bool{}
 		}
 		e.pkgInited[g.Pkg] = true
 		if initFn := g.Pkg.Func("init"); initFn != nil && initFn.Blocks != nil {
-			e.callSSA(initFn, nil, nil, nil)
+			e.runPackageInit(g.Pkg, initFn)
 		}
 		if p, ok := e.globals[g]; ok {
 			return p
@@ -113,6 +113,28 @@ func (e *Exec) globalAddr(g *ssa.Global) Ptr {
 	*p = e.initialGlobal(g)
 	e.globals[g] = p
 	return p
+}
+
+// runPackageInit executes a package's synthetic init (variable initialisers and
+// init functions). Other packages' initialisers are skipped, and calls into
+// dependencies that the engine does not model (protobuf registration and the
+// like) yield zero values instead of aborting: "lenient" mode, used only here.
+func (e *Exec) runPackageInit(pkg *ssa.Package, initFn *ssa.Function) {
+	e.initMode++
+	saveSteps := e.steps
+	defer func() {
+		e.initMode--
+		e.steps = saveSteps
+		if r := recover(); r != nil {
+			switch x := r.(type) {
+			case *goPanic:
+				panic(abortRun{kind: "error", msg: fmt.Sprintf("package %s initialiser panicked: %s at %s", pkg.Pkg.Path(), describe(x.val), x.where)})
+			default:
+				panic(r)
+			}
+		}
+	}()
+	e.callSSA(initFn, nil, nil, nil)
 }
 
 func isErrorType(t types.Type) bool {
@@ -607,12 +629,21 @@ func funcKey(f *ssa.Function) string {
 	return f.String()
 }
 
-func (e *Exec) callFunction(f *ssa.Function, args []Value, env []Value, caller *frame) Value {
+func (e *Exec) callFunction(f *ssa.Function, args []Value, env []Value, caller *frame) (res Value) {
 	if f.Name() == "init" && f.Synthetic != "" && f.Parent() == nil && len(args) == 0 {
-		// another package's initialiser, reached from a harness package's init: not run
+		// another package's initialiser, reached from a package's init: not run
 		return nil
 	}
 	key := funcKey(f)
+	if e.initMode > 0 {
+		pp := pkgPathOf(f)
+		if !e.prog.inModule(pp) && !strings.HasPrefix(pp, "verif/harness") {
+			if _, ok := intrinsics[key]; !ok {
+				// unmodelled dependency call during package initialisation
+				return zeroValueTuple(f.Signature.Results())
+			}
+		}
+	}
 	if in, ok := intrinsics[key]; ok {
 		e.noteIntrinsic(key)
 		return in(e, f, args)
